@@ -68,3 +68,212 @@ Proof. exact lz4_decode_total. Qed.
 (* and it inflates the literal-only block of any data to the data *)
 Theorem C03_lz4_literal_only : forall x, lz4_decode (literal_only_block x) = Ok x.
 Proof. exact lz4_literal_only. Qed.
+
+(* ==== the structural clauses proved about the MODEL OF THE REAL SERIALIZER (BinFile.encode_chunks, tied to rbx_binary by the
+   byte-exact binfile correspondence), for every DOM and every non-overlapping root selection (Proofs/BinStructure.v):
+   class table and type ids, every written instance in exactly one INST chunk once, PRNT in post-order with children before
+   parents, chunk list shape, header counts, one value per instance per PROP chunk, PRNT/INST payloads parsed back by the
+   reader model, SSTR duplicate free and complete.  overlapping_roots_duplicate: the non-overlap hypothesis is necessary. *)
+From RbxVerif Require Import Db CodecDom BinValues BinFile BinFileFacts BinPostorder BinStructure.
+
+Theorem C03_enc_class_ids :
+  forall (d : db) (p : enc_params) (dom : cdom) (roots : list N) (st : ser_state),
+       add_instances d p dom roots = Ok st ->
+       Sorted.StronglySorted blt (List.map fst (ss_types st)) /\
+       NoDup (List.map fst (ss_types st)) /\
+       Permutation.Permutation (type_ids (ss_types st)) (nseq (ss_next_id st)) /\
+       NoDup (type_ids (ss_types st)) /\
+       ss_next_id st = N.of_nat (Datatypes.length (ss_types st)) /\
+       (forall (c : bytes) (ti : type_info),
+        In (c, ti) (ss_types st) ->
+        ti_instances ti = filter (of_class dom c) (ss_relevant st) /\
+        ti_instances ti <> [] /\ ti_id ti < ss_next_id st) /\
+       (forall r : N, In r (ss_relevant st) -> exists ti : type_info, In (class_of dom r, ti) (ss_types st)) /\
+       Permutation.Permutation (flat_map (fun ct : bytes * type_info => ti_instances (snd ct)) (ss_types st))
+         (ss_relevant st).
+Proof. exact enc_class_ids. Qed.
+
+Theorem C03_enc_class_membership :
+  forall (d : db) (p : enc_params) (dom : cdom) (ts : list tree) (st : ser_state),
+       Forall (agrees (children_of dom)) ts ->
+       NoDup (flat_map refs ts) ->
+       add_instances d p dom (List.map root ts) = Ok st ->
+       ss_relevant st = flat_map post ts /\
+       NoDup (flat_map (fun ct : bytes * type_info => ti_instances (snd ct)) (ss_types st)) /\
+       (forall r : N,
+        In r (flat_map post ts) ->
+        exists (i : inst) (ti : type_info),
+          find_inst dom r = Some i /\
+          In (i_class i, ti) (ss_types st) /\
+          count_occ N.eq_dec (ti_instances ti) r = 1%nat /\
+          (forall (c' : bytes) (ti' : type_info),
+           In (c', ti') (ss_types st) -> In r (ti_instances ti') -> c' = i_class i /\ ti' = ti)).
+Proof. exact enc_class_membership. Qed.
+
+Theorem C03_enc_inst_type_ids :
+  forall (d : db) (p : enc_params) (dom : cdom) (roots : list N) (e : encoded),
+       encode_chunks d p dom roots = Ok e ->
+       exists (st : ser_state) (insts : list (bytes * bytes)),
+         add_instances d p dom roots = Ok st /\
+         filter (fun ch : bytes * bytes => bytes_eqb (fst ch) CH_INST) (en_chunks e) = insts /\
+         Forall2 (inst_chunk_of (enc_refs st)) (ss_types st) insts /\
+         List.map (fun ch : bytes * list N => firstn 4 (snd ch)) insts =
+         List.map (fun ct : bytes * type_info => w_le32 (ti_id (snd ct))) (ss_types st) /\
+         NoDup (List.map (fun ch : bytes * list N => firstn 4 (snd ch)) insts).
+Proof. exact enc_inst_type_ids. Qed.
+
+Theorem C03_enc_prnt :
+  forall (d : db) (p : enc_params) (dom : cdom) (ts : list tree) (e : encoded),
+       Forall (agrees (children_of dom)) ts ->
+       NoDup (flat_map refs ts) ->
+       encode_chunks d p dom (List.map root ts) = Ok e ->
+       let rel := flat_map post ts in
+       let parents := prnt_parents dom rel in
+       exists front : list (bytes * bytes),
+         en_chunks e =
+         front ++ [(CH_PRNT, prnt_payload (N.of_nat (Datatypes.length rel)) (prnt_objs rel) parents)] /\
+         NoDup rel /\
+         Datatypes.length parents = Datatypes.length rel /\
+         (Z.of_nat (Datatypes.length rel) <= 2147483647)%Z /\
+         (forall (k : nat) (r : N),
+          nth_error rel k = Some r ->
+          exists i : inst,
+            find_inst dom r = Some i /\
+            i_ref i = r /\
+            (forall j : nat,
+             i_parent i <> 0 ->
+             nth_error rel j = Some (i_parent i) -> nth_error parents k = Some (Z.of_nat j) /\ (k < j)%nat) /\
+            (i_parent i = 0 \/ ~ In (i_parent i) rel -> nth_error parents k = Some (-1)%Z) /\
+            (In r (List.map root ts) -> nth_error parents k = Some (-1)%Z)).
+Proof. exact enc_prnt. Qed.
+
+Theorem C03_enc_shape :
+  forall (d : db) (p : enc_params) (dom : cdom) (roots : list N) (e : encoded),
+       encode_chunks d p dom roots = Ok e ->
+       exists (st : ser_state) (insts props : list (bytes * bytes)) (objs parents : list Z),
+         add_instances d p dom roots = Ok st /\
+         en_chunks e =
+         sstr_chunks st ++
+         insts ++ props ++ [(CH_PRNT, prnt_payload (N.of_nat (Datatypes.length objs)) objs parents)] /\
+         (ss_sstr st = [] /\ sstr_chunks st = [] \/
+          ss_sstr st <> [] /\ sstr_chunks st = [(CH_SSTR, sstr_payload (ss_sstr st))]) /\
+         Forall2 (inst_chunk_of (enc_refs st)) (ss_types st) insts /\
+         Forall (fun ch : bytes * bytes => fst ch = CH_INST) insts /\
+         Datatypes.length insts = Datatypes.length (ss_types st) /\
+         Forall (fun ch : bytes * bytes => fst ch = CH_PROP) props /\
+         Datatypes.length objs = Datatypes.length (ss_relevant st) /\
+         Datatypes.length parents = Datatypes.length (ss_relevant st) /\ Forall chunk_name_ok (en_chunks e).
+Proof. exact enc_shape. Qed.
+
+Theorem C03_enc_header :
+  forall (d : db) (p : enc_params) (dom : cdom) (roots : list N) (e : encoded),
+       encode_chunks d p dom roots = Ok e ->
+       exists (front : list (bytes * bytes)) (objs parents : list Z),
+         en_chunks e = front ++ [(CH_PRNT, prnt_payload (N.of_nat (Datatypes.length objs)) objs parents)] /\
+         Datatypes.length parents = Datatypes.length objs /\
+         count_chunks CH_PRNT front = 0%nat /\
+         (let n_inst := N.of_nat (count_chunks CH_INST (en_chunks e)) in
+          let n_obj := N.of_nat (Datatypes.length objs) in
+          en_header e =
+          FILE_MAGIC_HEADER ++
+          FILE_SIGNATURE ++ w_le16 0 ++ w_le32 n_inst ++ w_le32 n_obj ++ [0; 0; 0; 0; 0; 0; 0; 0] /\
+          n_inst <= n_obj /\
+          n_obj < 2 ^ 31 /\
+          (forall rest : list N, decode_header None (en_header e ++ rest) = Ok (n_inst, n_obj, rest))).
+Proof. exact enc_header. Qed.
+
+Theorem C03_enc_prop_values :
+  forall (d : db) (p : enc_params) (dom : cdom) (roots : list N) (e : encoded),
+       encode_chunks d p dom roots = Ok e ->
+       exists (st : ser_state) (propss : list (list (bytes * bytes))),
+         add_instances d p dom roots = Ok st /\
+         filter (fun ch : bytes * bytes => bytes_eqb (fst ch) CH_PROP) (en_chunks e) = concat propss /\
+         Forall2
+           (fun (ct : bytes * type_info) (chs : list (bytes * bytes)) =>
+            Forall2 (prop_chunk_of p dom (enc_ctx_of p st) (snd ct)) (ti_props (snd ct)) chs) 
+           (ss_types st) propss.
+Proof. exact enc_prop_values. Qed.
+
+Theorem C03_enc_prnt_decodes :
+  forall (d : db) (p : enc_params) (dom : cdom) (ts : list tree) (e : encoded),
+       Forall (agrees (children_of dom)) ts ->
+       NoDup (flat_map refs ts) ->
+       encode_chunks d p dom (List.map root ts) = Ok e ->
+       let rel := flat_map post ts in
+       exists front : list (bytes * bytes),
+         en_chunks e =
+         front ++
+         [(CH_PRNT, prnt_payload (N.of_nat (Datatypes.length rel)) (prnt_objs rel) (prnt_parents dom rel))] /\
+         (forall (lim : option N) (ds : dstate),
+          lim_ok lim (4 * N.of_nat (Datatypes.length rel)) ->
+          decode_prnt lim ds
+            (prnt_payload (N.of_nat (Datatypes.length rel)) (prnt_objs rel) (prnt_parents dom rel)) =
+          ' r2 <- prnt_links (ds_insts ds) (ds_roots ds) (zip (prnt_objs rel) (prnt_parents dom rel));;
+          Ok
+            {|
+              ds_sstr := ds_sstr ds;
+              ds_types := ds_types ds;
+              ds_insts := fst r2;
+              ds_roots := snd r2;
+              ds_next := ds_next ds
+            |}).
+Proof. exact enc_prnt_decodes. Qed.
+
+Theorem C03_enc_inst_decodes :
+  forall (d : db) (p : enc_params) (dom : list inst) (roots : list N) (e : encoded),
+       Forall
+         (fun i : inst => utf8_valid (i_class i) = true /\ N.of_nat (Datatypes.length (i_class i)) < 2 ^ 32)
+         dom ->
+       encode_chunks d p dom roots = Ok e ->
+       exists (st : ser_state) (insts : list (bytes * bytes)),
+         add_instances d p dom roots = Ok st /\
+         filter (fun ch : bytes * bytes => bytes_eqb (fst ch) CH_INST) (en_chunks e) = insts /\
+         Forall2
+           (fun (ct : bytes * type_info) (ch : bytes * bytes) =>
+            exists ids : list Z,
+              ch = (CH_INST, inst_payload (fst ct) (snd ct) ids) /\
+              Forall2 (fun (r : N) (z : Z) => lookup r (enc_refs st) = Some z) (ti_instances (snd ct)) ids /\
+              (forall (lim : option N) (ds : dstate),
+               lim_ok lim (N.of_nat (Datatypes.length (fst ct))) ->
+               lim_ok lim (4 * N.of_nat (Datatypes.length ids)) ->
+               decode_inst lim ds (snd ch) =
+               Ok
+                 (let r := register_insts (fst ct) ids (ds_insts ds, ds_next ds) in
+                  {|
+                    ds_sstr := ds_sstr ds;
+                    ds_types :=
+                      upd (ti_id (snd ct)) {| dt_name := fst ct; dt_referents := ids |} (ds_types ds);
+                    ds_insts := fst r;
+                    ds_roots := ds_roots ds;
+                    ds_next := ds_next ds + N.of_nat (Datatypes.length ids)
+                  |}, if ti_service (snd ct) then List.map (fun _ : N => 1) (ti_instances (snd ct)) else [])))
+           (ss_types st) insts.
+Proof. exact enc_inst_decodes. Qed.
+
+Theorem C03_enc_sstr :
+  forall (d : db) (p : enc_params) (dom : cdom) (roots : list N) (e : encoded),
+       encode_chunks d p dom roots = Ok e ->
+       exists st : ser_state,
+         add_instances d p dom roots = Ok st /\
+         NoDup (ss_sstr st) /\
+         filter (fun ch : bytes * bytes => bytes_eqb (fst ch) CH_SSTR) (en_chunks e) =
+         match ss_sstr st with
+         | [] => []
+         | b :: l0 => [(CH_SSTR, sstr_payload (b :: l0))]
+         end /\
+         (forall (r : N) (i : inst) (name s : bytes),
+          In r (ss_relevant st) ->
+          find_inst dom r = Some i -> In (name, VSharedString s) (i_props i) -> In s (ss_sstr st)).
+Proof. exact enc_sstr. Qed.
+
+Theorem C03_overlapping_roots_duplicate :
+  exists (st : ser_state) (e : encoded),
+         add_instances db0 ep0 sample_dom [1; 2] = Ok st /\
+         encode_chunks db0 ep0 sample_dom [1; 2] = Ok e /\
+         ss_relevant st = [2; 3; 1; 2] /\
+         List.map (fun ct : bytes * type_info => ti_instances (snd ct)) (ss_types st) = [[2; 1; 2]; [3]] /\
+         en_header e =
+         FILE_MAGIC_HEADER ++ FILE_SIGNATURE ++ w_le16 0 ++ w_le32 2 ++ w_le32 4 ++ [0; 0; 0; 0; 0; 0; 0; 0] /\
+         last (en_chunks e) ([], []) = (CH_PRNT, prnt_payload 4 [3%Z; 1%Z; 2%Z; 3%Z] [2%Z; 2%Z; (-1)%Z; 2%Z]).
+Proof. exact overlapping_roots_duplicate. Qed.
+
